@@ -24,13 +24,15 @@ def step (s : St) : List String → St × String
   | ["new", n] => ({ fs := FS.empty, rm := RM.fresh (nat! n) }, "new")
   | ["stop"] => (s, "stop 1")     -- a stop request does not change what a dump does
   | ["newt", n] => ({ fs := FS.empty, rm := RM.fresh (nat! n) }, "newt 1")
-  | ["reboot"] => ({ s with rm := RM.fresh s.rm.maxB }, "reboot")
+  | ["reboot"] => match hstep (s.fs, s.rm) .reboot with
+    | some (fs', rm') => ({ fs := fs', rm := rm' }, "reboot")
+    | none => (s, "reboot abort")
   | ["ls"] => (s, "ls" ++ listing s.fs s.rm.maxB)
   | ["dump", v] =>
-    let (ops, rm') := dumpOps startFixed s.rm (nat! v)
-    match execAll s.fs ops with
+    let (ops, _) := dumpOps startFixed s.rm (nat! v)
+    match hstep (s.fs, s.rm) (.dump (nat! v)) with   -- the step function of the history theorems
     | none => (s, "dump abort")
-    | some fs' => ({ fs := fs', rm := rm' }, "dump ok" ++ listing fs' s.rm.maxB ++ s!" #renames={ops.length - 3}")
+    | some (fs', rm') => ({ fs := fs', rm := rm' }, "dump ok" ++ listing fs' s.rm.maxB ++ s!" #renames={ops.length - 3}")
   | ["crash", v, p] =>
     let (ops, _) := dumpOps startFixed s.rm (nat! v)
     let ps := prefixes s.fs ops
